@@ -17,6 +17,7 @@ From Verif Require Import Lib.Base Lib.Dec Lib.PyStr Gen.PyChars
   Repro.StructProofsPD4 Repro.StructProofs.
 From Verif Require Import Repro.DocInv Repro.Abs Repro.ParseDumpAbs Repro.ParseDumpAbsEdits
   Repro.ParseDumpAbsStruct.
+From Verif Require Repro.StructCheck Repro.StructCheckProofs.
 
 (** * 1. byname_consistent
 
@@ -403,6 +404,75 @@ Example C10_insert_append_nonvacuous :
   end.
 Proof. vm_compute. repeat split. Qed.
 
+(** * 5. agree_implies_holds: the bridge between the correspondence and the theorems above
+
+    For every case of the check (Repro/StructCheck.v): whenever the implementation behaved like the
+    model ([agree]: same exception kind, same dump, same (name, i) -> position answers after every
+    operation), the property held on what the implementation did ([holds]: after every operation
+    the observation is explained by one of the list outcomes the reference permits).
+
+    Without a side condition the statement is FALSE, because [holds] uses two things [agree] does
+    not determine: (a) [s_reparse], the implementation's fresh parse of every dump, which [agree]
+    never looks at; (b) [sep_ok] of the initial items (every field starts at the beginning of a
+    line).  [StructCheckProofs.judged c] (boolean, computed from the case) says: the initial
+    items satisfy [sep_ok], and for every judged step (ASCII operation inside the reference's
+    domain), with [d'] the state of the model after it:
+      1. for every operation, [reparse_is]: the recorded fresh parse is [sread (abs d')] -
+         observation (a).  For the seven structural operations (order_first / order_last /
+         order_before / order_after / sort_fields / del / re-append) NOTHING ELSE is assumed;
+      2. for p[k] = v / append / insert only (the operations that build a field from a VALUE,
+         C05's subject; the refinement theorem leaves the built field open there): [abs d'] keeps
+         [sep_ok] and is among the outcomes [s_cands] permits for the field the reference builds;
+      3. for insert only: no OTHER permitted outcome explains the same observation ([holds]
+         commits to the first one that does).
+    Proved, not assumed: the flag, the dump and the position answers are the model's (from
+    [agree]) and satisfy the reference ([C10_step_refines_list],
+    [C10_name_index_is_ith_occurrence], [C10_parsed_paragraph_consistent]); the structural
+    operations keep [sep_ok] ([StructCheckProofs.structural_sep]); for paragraph operations,
+    append and re-append two permitted outcomes with the same flag, dump and fresh parse are EQUAL
+    ([unamb_para], [unamb_append]), so [first_match] picks the model's state and the induction
+    goes through the whole history. *)
+Theorem C10_agree_implies_holds :
+  forall c, StructCheckProofs.judged c = true ->
+            StructCheck.agree c = true -> StructCheck.holds c = true.
+Proof. exact StructCheckProofs.agree_implies_holds. Qed.
+
+(** [judged] and [agree] hold together on non-trivial cases: a bulk move in a paragraph with an
+    unterminated last field; delete, insert past the end, p[k] = v on the emptied paragraph *)
+Example C10_agree_implies_holds_nonvacuous :
+  let cs := ((let s0 := "A: b
+" in let s1 := "B: c
+" in
+    [StructCheck.Run [s0; "B: c"] [StructCheck.IP false [StructCheck.FL "" "A" ": b
+"; StructCheck.FL "" "B" ": c"]] [StructCheck.LFirst 0 (StructCheck.KS "B")]
+       [StructCheck.mkS None [s1; s0] (Some [[StructCheck.NT "B" s1; StructCheck.NT "A" s0]])
+          [StructCheck.PQ 0 [StructCheck.Q "B" 0%Z (Ok 0); StructCheck.Q "A" 0%Z (Ok 1);
+                             StructCheck.Q "A" 1%Z (Err KeyError)]]]])
+   ++ (let s0 := "X: v
+" in let s1 := "N: x
+" in let s2 := "A: b
+" in
+    [StructCheck.Run [s0; "
+"; "Dd: v"] [StructCheck.IP false [StructCheck.FL "" "X" ": v
+"]; StructCheck.IO OWs "
+"; StructCheck.IP false [StructCheck.FL "" "Dd" ": v"]]
+       [StructCheck.LDel 1 (StructCheck.KS "Dd"); StructCheck.LInsert 2%Z [("N", "x")];
+        StructCheck.LSet 1 (StructCheck.KS "A") "b"]
+       [StructCheck.mkS None [s0; "
+"] (Some [[StructCheck.NT "X" s0]]) [StructCheck.PQ 1 [StructCheck.Q "Dd" 0%Z (Err KeyError)]];
+        StructCheck.mkS None [s0; "
+"; "
+"; s1] (Some [[StructCheck.NT "X" s0]; [StructCheck.NT "N" s1]])
+          [StructCheck.PQ 0 [StructCheck.Q "X" 0%Z (Ok 0)]; StructCheck.PQ 1 [];
+           StructCheck.PQ 2 [StructCheck.Q "N" 0%Z (Ok 0)]];
+        StructCheck.mkS None [s0; "
+"; s2; "
+"; s1] (Some [[StructCheck.NT "X" s0]; [StructCheck.NT "A" s2]; [StructCheck.NT "N" s1]])
+          [StructCheck.PQ 1 [StructCheck.Q "A" 0%Z (Ok 0); StructCheck.Q "A" 1%Z (Err KeyError)]]]]))%list in
+  forallb StructCheckProofs.judged cs = true /\ forallb StructCheck.agree cs = true
+  /\ forallb StructCheck.holds cs = true.
+Proof. vm_compute. repeat split. Qed.
+
 Print Assumptions C10_byname_consistent.
 Print Assumptions C10_byname_is_filtered_order.
 Print Assumptions C10_name_index_is_ith_occurrence.
@@ -421,3 +491,4 @@ Print Assumptions C10_newline_is_one_lf_at_the_end.
 Print Assumptions C10_insert_append_no_merge_partial.
 Print Assumptions C10_insert_append_no_merge.
 Print Assumptions C10_built_paragraph_ok.
+Print Assumptions C10_agree_implies_holds.
